@@ -36,6 +36,9 @@ def gen_cases(tier, seed):
         case["y0"] = "rand" if rng.random() < 0.7 else "none"
         case["x0"] = "restart"
         case["x0_seed"] = int(rng.integers(0, 1000))
+        # checker parameters: defaults and non-default perturbation / tolerance pairs
+        pert, tol = [(1e-8, 1e-4), (1e-8, 1e-4), (1e-7, 1e-5), (1e-6, 1e-4), (1e-8, 1e-5), (1e-7, 1e-4)][int(rng.integers(0, 6))]
+        case["deriv_pert"], case["deriv_tol"] = pert, tol
         cases.append(case)
     return cases
 
@@ -70,7 +73,7 @@ class CorruptProblem(mon.ProxyProblem):
         return self._bump(H) if self.kind == "hess" else H
 
 
-def fd_error_bounds(D, z, y):
+def fd_error_bounds(D, z, y, EPS=1e-8):
     """Bounds on |analytic - forward difference| for the three checked functions of the internal problem
     at z: truncation eps/2*|second derivative| + evaluation rounding 4*macheps*|f|/eps + perturbation rounding
     2*macheps*|z_i|*|d|/eps.  Returns the largest bound over all entries."""
@@ -105,6 +108,8 @@ def run_solve_with(case, prob_wrap, check):
 
     p = work.prepare(case, record_sites=False, keep_args=False)
     prob = p.inner if prob_wrap is None else prob_wrap(p.inner)
+    p.params.deriv_pert = case.get("deriv_pert", 1e-8)
+    p.params.deriv_tol = case.get("deriv_tol", 1e-4)
     p.params.deriv_check = {"off": DerivCheck.NoCheck, "all": DerivCheck.CheckAll, "first": DerivCheck.CheckFirst,
                             "second": DerivCheck.CheckSecond}[check]
     out = mon.run_solve(prob, p.params, p.x0, p.y0)
@@ -135,8 +140,12 @@ def run_case(case):
     w = work.weights_of(off.solver, spec)
     D = R.internal_dense(p.P, w)
     z0, y0 = R.to_internal_point(p.P, w, work.x0_array(p), work.y0_array(p))
-    bound = fd_error_bounds(D, z0, y0)
-    well_scaled = bound <= 1e-5
+    EPSc = case.get("deriv_pert", 1e-8)
+    TOLc = case.get("deriv_tol", 1e-4)
+    bound = fd_error_bounds(D, z0, y0, EPSc)
+    well_scaled = bound <= 0.1 * TOLc
+    bump("params_pert%g_tol%g" % (EPSc, TOLc))
+    bump("non_default_checker_parameters", int((EPSc, TOLc) != (1e-8, 1e-4)))
     res["maxes"] = {"fd_error_bound": bound}
     bump("base_runs")
     evals = 1
@@ -184,8 +193,9 @@ def run_case(case):
     for kind, i, j in positions:
         entry = g_int[j] if kind == "grad" else (J_int[i, j] if kind == "jac" else H_int[i, j])
         # magnitude in the internal (checked) problem: safely above atol + rtol*|.| plus the FD error bound
-        base = 3.0 * (TOL + 1e-5 * (abs(entry) + 10.0)) + 10.0 * min(bound, 1.0) + 1e-5
-        dint = base * float(10.0 ** rng.uniform(0, 4)) * float(rng.choice([-1.0, 1.0]))
+        base = 3.0 * (TOLc + 1e-5 * (abs(entry) + 10.0)) + 10.0 * min(bound, 1.0) + 0.1 * TOLc
+        # errors just above the tolerance are the interesting ones: up to 30x in most cases
+        dint = base * float(10.0 ** (rng.uniform(0, 1.5) if rng.random() < 0.7 else rng.uniform(0, 4))) * float(rng.choice([-1.0, 1.0]))
         if abs(dint) > 10.0:
             dint = np.sign(dint) * float(rng.uniform(1.0, 10.0)) if base < 1.0 else dint
         dropped = False
@@ -246,12 +256,13 @@ def finalize(agg, tier):
         "rule": "NLP specs (softplus objective terms, quadratic rows, slacks, optional custom power-of-two scaling), n<=6, "
                 "random in-bounds starts incl. on-bound components, random or zero starting multipliers; per base problem: "
                 "check modes All/First/Second with correct derivatives (only if the computed forward-difference error bound "
-                "is <= 1e-5) and up to 40 single-entry corruptions (every gradient / Jacobian / Hessian position when there "
-                "are fewer) with magnitude 1x..1e4x the safe threshold 3(atol+rtol|entry|), both signs, 30% of the matrix corruptions as an entry missing from the sparsity pattern; 25% of them under a "
+                "is <= a tenth of the tolerance) and up to 40 single-entry corruptions (every gradient / Jacobian / Hessian position when there "
+                "are fewer) for default and non-default (deriv_pert, deriv_tol) pairs, with magnitude 1x..30x (30%: up to 1e4x) the safe threshold 3(atol+rtol|entry|), both signs, 30% of the matrix corruptions as an entry missing from the sparsity pattern; 25% of them under a "
                 "partial check mode; non-trivial = comparison carried out and as expected; distinct by construction",
         "floors": {"base_runs": 100, "well_scaled_bases": 40, "correct_runs_checked": 120, "corruptions_injected": 2000,
                    "corrupt_grad": 200, "corrupt_jac": 300, "corrupt_hess": 500, "pinpointed": 1500,
-                   "corruptions_outside_checked_part": 100, "corruptions_entry_missing_from_pattern": 100},
+                   "corruptions_outside_checked_part": 100, "corruptions_entry_missing_from_pattern": 100,
+                   "non_default_checker_parameters": 40},
         "assumptions": ["well-scaled class: eps/2*|2nd derivative| + 4*macheps*|f|/eps + 2*macheps*|x_i||d|/eps <= 1e-5 for "
                         "all checked functions of the transformed problem at the start (magnitudes as sums of absolute "
                         "values of terms); location is only judged for bases in that class"],
